@@ -163,3 +163,50 @@ func TestC08_Reporter(t *testing.T) {
 		},
 		Check: c08Check})
 }
+
+// customDescriptor returns the repository's alternative google/protobuf/descriptor.proto (the options corpus ships one
+// with extra option fields); invalid appends a message with a duplicate field number.
+func customDescriptor(invalid bool) string {
+	for _, ws := range corpus() {
+		if ws.Name == "options" {
+			d := ws.Files["google/protobuf/descriptor.proto"]
+			if invalid {
+				d += "\nmessage VerifBad { optional int32 a = 1; optional int32 b = 1; }\n"
+			}
+			return d
+		}
+	}
+	panic("options corpus not found")
+}
+
+// TestC08_ImplicitDescriptor: errors of a resolver-supplied descriptor.proto that nothing imports still reach the
+// reporter (every file depends on it implicitly), so they are subject to the same contract.
+func TestC08_ImplicitDescriptor(t *testing.T) {
+	ev.Run(t, ev.Spec[c08Case]{ID: "C08", Name: "ImplicitDescriptor", Quick: 150, Thorough: 5000,
+		Rule: "as Reporter, but the resolver also supplies its own google/protobuf/descriptor.proto (valid, or invalid through a duplicate field number) which no generated file imports and which is not requested: it is compiled as the implicit dependency of every file; 0-2 further injected defects; same oracle (an accepted reported error => ErrInvalidSource; a reporter error => that very error; no report => success); non-trivial = the invalid descriptor.proto at parallelism >= 2",
+		Gen: func(t *rapid.T) c08Case {
+			ws := gen.GenWorkspace(t, gen.Config{MinFiles: 1, MaxFiles: 4, ImportPct: 50})
+			c := c08Case{Par: 1 + gen.Uniform(t, 4, "par"), Yields: map[string]int{}}
+			nm := gen.Pick(t, []int{0, 0, 0, 1, 2}, "nmut")
+			seen := map[string]bool{}
+			for i := 0; i < nm; i++ {
+				if m := gen.Mutate(t, ws); m != "" && !seen[m] {
+					seen[m] = true
+					c.Mutations = append(c.Mutations, m)
+				}
+			}
+			c.Files, c.Names = ws.PrintAll(), ws.Names()
+			invalid := gen.Pct(t, 70, "invalid-descriptor")
+			c.Files["google/protobuf/descriptor.proto"] = customDescriptor(invalid)
+			if invalid {
+				c.Mutations = append(c.Mutations, "invalid-implicit-descriptor")
+			}
+			c.AbortAt = gen.Pick(t, []int{0, 0, 0, 1, 2, 3}, "abort")
+			for _, n := range c.Names {
+				c.Yields[n] = gen.Uniform(t, 30, "y")
+			}
+			c.Yields["google/protobuf/descriptor.proto"] = gen.Uniform(t, 60, "yd")
+			return c
+		},
+		Check: c08Check})
+}
